@@ -333,6 +333,25 @@ class TypedNode(Node):
     #: Alias for :meth:`add_child`
     add = add_child
 
+    def _add_from(
+        self, other: Node, *, predicate: Optional[PredicateCallbackType] = None
+    ) -> None:
+        """Append copies of all source descendants to self (keeping the kind).
+
+        See also :ref:`iteration-callbacks`.
+        """
+        if predicate:
+            return self._add_filtered(other, predicate)
+
+        assert not self._children
+        for child in other.children:
+            new_child = self.add_child(
+                child.data, kind=child.kind, data_id=child._data_id
+            )
+            if child.children:
+                new_child._add_from(child, predicate=None)
+        return
+
     def append_child(
         self,
         child: TypedNode | TypedTree | Any,
